@@ -17,7 +17,21 @@ static int verif_tolower(int c) { return (c >= 'A' && c <= 'Z') ? c + 32 : c; }
 #define isdigit verif_isdigit
 #define isspace verif_isspace
 #define tolower verif_tolower
+/* snprintf for the two formats json_write_string uses ("\\u%04lX" and "\\u%04lX\\u%04lX"); CBMC has no model of snprintf */
+#include <stdarg.h>
+static int verif_hex4(char *o, unsigned long v) { int n = 0; for (int sh = 12; sh >= 0; sh -= 4) { int d = (v >> sh) & 15; o[n++] = d < 10 ? '0' + d : 'A' + d - 10; } return n; }
+static int verif_snprintf(char *out, unsigned long size, const char *fmt, ...) {
+  va_list ap; va_start(ap, fmt); int n = 0;
+  __CPROVER_assert(fmt[0] == '\\' && fmt[1] == 'u' && fmt[2] == '%' && fmt[6] == 'X', "snprintf.model: only the \\u%04lX formats are modelled");
+  unsigned long a = va_arg(ap, unsigned long);
+  __CPROVER_assert(a <= 0xFFFF, "snprintf.model: four hex digits suffice");
+  out[n++] = '\\'; out[n++] = 'u'; n += verif_hex4(out + n, a);
+  if (fmt[7] == '\\') { unsigned long b = va_arg(ap, unsigned long); __CPROVER_assert(b <= 0xFFFF, "snprintf.model: four hex digits suffice"); out[n++] = '\\'; out[n++] = 'u'; n += verif_hex4(out + n, b); }
+  out[n] = 0; va_end(ap); return n;
+}
+#define snprintf verif_snprintf
 #include "lib/chibi/json.c"
+#undef snprintf
 /* sexp_c_string: records the bytes it is given (the contract of the real one: a string with exactly these bytes) */
 static unsigned char got[12]; static long got_len = -1; static struct vm_pair_t str_token;
 sexp sexp_c_string (sexp ctx, const char *str, sexp_sint_t slen) {
@@ -74,5 +88,52 @@ void h_json_surrogates(void) {             /* \uD8xx-\uDBxx followed by \uDCxx-\
   buf[6] = '\\'; buf[7] = 'u'; for (int k = 0; k < 4; k++) buf[8 + k] = in_l[k];
   sexp r = run(12);
   expect_cp(r, 0x10000 + ((h - 0xD800) << 10) + (l - 0xDC00));
+  REACH();
+}
+
+/* ---- the writer, and writer followed by reader (the pair must be inverse) ---- */
+#ifndef W
+#define W 1
+#endif
+static char obuf[40];
+static __typeof__(pt) op;
+/* sexp.c:sexp_buffered_write_string on a port whose buffer has room: appends the bytes (the contract of the real one) */
+int sexp_buffered_write_string (sexp ctx, const char *str, sexp p) {
+  __CPROVER_assert(p == (sexp)&op, "write.port: the output port");
+  for (int k = 0; k < 14 && str[k]; k++) { __CPROVER_assert(op.offset < 39, "harness.bound: output buffer sufficed"); if (op.offset < 39) obuf[op.offset++] = str[k]; }
+  return 0;
+}
+static struct __attribute__((packed)) { struct vm_hdr h; unsigned long length; char data[W + 1]; } sbytes;
+static struct { struct vm_hdr h; sexp bytes; unsigned long offset, length; } sstr;
+int in_cp; unsigned char in_b[4];
+void h_json_write_read(void) {
+  in_cp = nondet_int();
+  __CPROVER_assume(in_cp >= 0 && in_cp <= 0x10FFFF && !(in_cp >= 0xD800 && in_cp <= 0xDFFF));
+  __CPROVER_assume((W == 1) ? in_cp < 0x80 : (W == 2) ? (in_cp >= 0x80 && in_cp < 0x800) : (W == 3) ? (in_cp >= 0x800 && in_cp < 0x10000) : in_cp >= 0x10000);
+  if (W == 1) in_b[0] = in_cp; else if (W == 2) { in_b[0] = 0xC0 | (in_cp >> 6); in_b[1] = 0x80 | (in_cp & 0x3F); }
+  else if (W == 3) { in_b[0] = 0xE0 | (in_cp >> 12); in_b[1] = 0x80 | ((in_cp >> 6) & 0x3F); in_b[2] = 0x80 | (in_cp & 0x3F); }
+  else { in_b[0] = 0xF0 | (in_cp >> 18); in_b[1] = 0x80 | ((in_cp >> 12) & 0x3F); in_b[2] = 0x80 | ((in_cp >> 6) & 0x3F); in_b[3] = 0x80 | (in_cp & 0x3F); }
+  sbytes.h.tag = SEXP_BYTES; sbytes.length = W; for (int k = 0; k < W; k++) sbytes.data[k] = in_b[k]; sbytes.data[W] = 0; verif_register(&sbytes);
+  sstr.h.tag = SEXP_STRING; sstr.bytes = (sexp)&sbytes; sstr.offset = 0; sstr.length = W; verif_register(&sstr);
+  vm_ctx_obj.h.tag = SEXP_CONTEXT; verif_register(&vm_ctx_obj); vm_ctx_obj.saves = NULL;
+  vm_globals_obj.h.tag = SEXP_VECTOR; vm_globals_obj.length = SEXP_G_NUM_GLOBALS; verif_register(&vm_globals_obj); vm_ctx_obj.globals = (sexp)&vm_globals_obj;
+  op.tag = SEXP_OPORT; op.openp = 1; op.buf = obuf; op.size = 39; op.offset = 0; op.stream = NULL; op.name = SEXP_FALSE; verif_register(&op);
+  sexp w = json_write_string((sexp)&vm_ctx_obj, NULL, (sexp)&sstr, (sexp)&op);
+  OBL(!sexp_exceptionp(w), "json_write.total: every string of scalar values can be written");
+  long n = op.offset;
+  OBL(n >= 3 && n <= 14 && obuf[0] == '"' && obuf[n - 1] == '"', "json_write.quoted: the text is enclosed in double quotes");
+  __CPROVER_assume(n >= 3 && n <= 14);
+  /* RFC 8259 section 7: inside the quotes no raw quotation mark, no raw control character, and a reverse solidus only as the start of an escape */
+  for (int k = 1; k < 13; k++) if (k < n - 1) {
+    unsigned char c = obuf[k];
+    OBL(c >= 0x20, "json_write.no_raw_control: control characters U+0000..U+001F are escaped");
+    OBL(c != '"' || obuf[k - 1] == '\\', "json_write.no_raw_quote: a quotation mark inside the string is escaped");
+  }
+  /* the reader of the same file decodes the text back to the same string */
+  for (int k = 0; k < 14; k++) buf[k] = (k + 1 < n) ? obuf[k + 1] : 0;
+  pt.tag = SEXP_IPORT; pt.openp = 1; pt.buf = buf; pt.size = n - 1; pt.offset = 0; pt.stream = NULL; pt.name = SEXP_FALSE; verif_register(&pt);
+  sexp r = json_read_string((sexp)&vm_ctx_obj, NULL, (sexp)&pt);
+  OBL(r == (sexp)&str_token && got_len == W, "json_roundtrip.length: string->json (json->string s) has the length of s");
+  for (int k = 0; k < 4; k++) if (k < W) OBL(got[k] == in_b[k], "json_roundtrip.value: string->json (json->string s) == s");
   REACH();
 }
